@@ -471,7 +471,15 @@ def _main(pid, tier, vseed, replay=None):
         b = all_buckets[(sub, sname)]
         case, detail = b['case'], b['detail']
         si = [i for i, s in enumerate(stages) if s.name == b['stage']][0]
-        if stages[si].kind == 'hyp' and os.environ.get('PV_SHRINK', '1') != '0':
+        pre = None
+        if hasattr(mod, 'known'):
+            try:
+                pre = mod.known(case, sub)
+            except Exception:
+                pre = None
+        if pre in open_known:
+            pass        # an open known finding needs no minimisation: its committed replay is the witness
+        elif stages[si].kind == 'hyp' and os.environ.get('PV_SHRINK', '1') != '0':
             budget = 240 if tier == 'thorough' else 45
             try:
                 got = shrink_bucket(mod, stages[si], sub, b['origin'], budget_s=budget) if b.get('origin') else None
